@@ -38,7 +38,9 @@ func tryPanic(f func()) (p string, trc string) {
 
 func exportPoint(rig *Rig, sc *Scenario, s *State, fresh *State) c19Result {
 	res := c19Result{wit: map[string]int64{}}
-	add := func(clause, disc, detail string) { res.viols = append(res.viols, viol("C19", clause, "export", disc, detail)) }
+	add := func(clause, disc, detail string) {
+		res.viols = append(res.viols, viol("C19", clause, "export", disc, detail))
+	}
 	pre := rig.Decode(s)
 	w := rig.Restore(s)
 	if p, trc := tryPanic(func() { service.PrepForZeroHeightGenesis(w.ctx, rig.sk) }); p != "" {
